@@ -53,6 +53,8 @@ def evaluate(chk, cases, results, workdir):
             if a.startswith('TIMEOUT') or a.startswith('CRASH'):
                 violations.append(dict(case=c, profile=prof, impl=a, model=e, reason='implementation did not return: ' + a.split()[0]))
                 continue
+            if an == 'BADCASE' and en == 'BADCASE':
+                raise Broken('generator produced a case neither side can build: ' + c[:200])
             verdict = chk.judge(c, an, spec[i], ctx, i)
             if verdict is not None:
                 if isinstance(verdict, tuple) and verdict[0] == 'KF':
@@ -65,6 +67,12 @@ def evaluate(chk, cases, results, workdir):
                                        reason='model and implementation differ under the projection of %s' % chk.id))
             if chk.nontrivial(c, an):
                 distinct.add(c)
+    if getattr(chk, 'cross_profile', False) and len(results) == 2:
+        (pa, (_, aa)), (pb, (_, ab)) = sorted(results.items())
+        for c, x, y in zip(cases, aa, ab):
+            if lib.normalize(x) != lib.normalize(y):
+                violations.append(dict(case=c, profile=pa + '/' + pb, impl=x, model=y,
+                                       reason='the two build profiles produce different results'))
     return violations, known, mismatches, len(distinct)
 
 
@@ -134,14 +142,21 @@ def main():
         # 4. correspondence broken but no judged failure: search
         searched = 0
         if (mismatches or proof_problems) and not violations:
-            rng2 = random.Random(seed + 1)
-            extra, _ = chk.cases(rng2, 'thorough' if tier == 'quick' else 'thorough')
-            extra = extra[:200000]
-            res2 = run_cases(chk, extra, bins, workdir, 'search')
-            v2, k2, m2, _ = evaluate(chk, extra, res2, workdir)
-            searched = len(extra)
-            violations += v2
-            known += k2
+            # the property is no longer shown to hold: look for a concrete failing input with fresh
+            # seeds (judge on the implementation's output), for at most ~2 minutes
+            t_search = time.time()
+            for k in range(1, 4):
+                if time.time() - t_search > 120:
+                    break
+                extra, _ = chk.cases(random.Random(seed + k), 'quick')
+                extra = extra[:60000]
+                res2 = run_cases(chk, extra, bins, workdir, 'search')
+                v2, k2, m2, _ = evaluate(chk, extra, res2, workdir)
+                searched += len(extra)
+                violations += v2
+                known += k2
+                if violations:
+                    break
         # 5. verdict
         obligations = n_thm + len(chk.ops)
         discharged = n_closed + (len(chk.ops) if not mismatches else 0)
